@@ -95,6 +95,9 @@ enum Fin {
     CJmp(Value, usize),
     /// direct call; `returns`: emit a return label to the next instruction
     Call(u64, bool),
+    /// direct call with explicitly given target address and return block address (either may be outside everything Ghidra
+    /// disassembled: error paths that call into / fall through to a region without recovered code)
+    CallRaw(u64, Option<u64>),
     CallInd(Value, bool),
     Ret(Value),
     /// indirect branch with jump-table hints (labels)
@@ -202,6 +205,13 @@ fn assemble(asm: &Asm, base: u64) -> Assembled {
                 }
                 Fin::Call(t, returns) => {
                     let ret = if *returns { json!({"Direct": next}) } else { Value::Null };
+                    jmps.push(json!({"tid": jt(0), "term": jmp_json("CALL", Value::Null, json!({"target": {"Direct": sub_tid(*t)}, "return": ret, "call_string": null}), Value::Null, Value::Null)}));
+                }
+                Fin::CallRaw(t, ret_addr) => {
+                    let ret = match ret_addr {
+                        Some(r) => json!({"Direct": blk_tid(*r)}),
+                        None => Value::Null,
+                    };
                     jmps.push(json!({"tid": jt(0), "term": jmp_json("CALL", Value::Null, json!({"target": {"Direct": sub_tid(*t)}, "return": ret, "call_string": null}), Value::Null, Value::Null)}));
                 }
                 Fin::CallInd(v, returns) => {
@@ -984,7 +994,7 @@ impl Fg {
                 pg.feat("fmt-nonconst");
             }
             _ => {
-                let s = *pg.rng.pick(&["%s", "%d\n", "hello %s %d\n", "cat %s", "%s/%s.%d", "id=%u name=%s\n", "%x%x%n", "echo %s"]);
+                let s = *pg.rng.pick(&["%s", "%d\n", "hello %s %d\n", "cat %s", "%s/%s.%d", "id=%u name=%s\n", "%x%x%n", "echo %s", "%ld\n", "n=%lu %s\n", "%lld %d", "100%% %d"]);
                 let a = pg.ro(s);
                 self.mov_ri(pg, reg, a);
             }
@@ -1343,7 +1353,32 @@ impl Fg {
         pg.feat("long-expression-chain");
     }
 
+    /// Error path `if (..) call <somewhere>`: the call target and/or the fall-through address lie in a region without
+    /// recovered code (the extractor then emits references to subs / blocks that do not exist).
+    fn t_dangling_call(&mut self, pg: &mut Pg) {
+        let l = self.asm.label();
+        self.test_rr("RDI");
+        self.jz(l);
+        let nowhere = 0x00de_0000u64 + 0x100 * pg.rng.below(8);
+        let here = self.here(pg);
+        let kt = pg.rng.usize_below(pg.n_funcs);
+        let known_target = pg.fn_addr(kt);
+        let (target, ret) = match pg.rng.below(4) {
+            0 => (nowhere, Some(nowhere + 0x40)),  // target and return site unknown
+            1 => (nowhere, Some(here + 4)),       // only the target unknown
+            2 => (known_target, Some(nowhere + 0x40)), // only the return site unknown
+            _ => (nowhere, None),
+        };
+        self.asm.push(vec![op2("INT_SUB", r8("RSP"), r8("RSP"), vconst(8, 8)), op_store(r8("RSP"), vconst(here + 4, 8))], Fin::CallRaw(target, ret));
+        self.asm.bind(l);
+        pg.feat("dangling-call");
+    }
+
     fn t_call(&mut self, pg: &mut Pg) {
+        if pg.rng.chance(1, 6) {
+            self.t_dangling_call(pg);
+            return;
+        }
         match pg.rng.below(5) {
             0 => {
                 // indirect call through a global function pointer or a register
